@@ -354,11 +354,13 @@ impl Runnable for Cfg {
                     _ => None,
                 };
                 match gap {
-                    Some(g) if g <= F32_REORDER_GAP => "nondet:tree:impurity-f32-sum-order".into(),
+                    Some(g) if g <= F32_REORDER_GAP => "nondet:tree:hash-ordered-impurity-sum:rounding".into(),
                     _ => format!("nondet:{part}"),
                 }
             }
-            Kind::TreeMultiClass if part.starts_with("tree:") => format!("nondet:tree:multiclass:{}", &part[5..]),
+            // 3+ classes: the impurity of a candidate split is a sum over the classes in hash order; scores that
+            // are equal in exact arithmetic come out one f32 rounding apart, and which split wins moves with it
+            Kind::TreeMultiClass if part.starts_with("tree:") => "nondet:tree:hash-ordered-impurity-sum:split-choice".into(),
             _ => format!("nondet:{part}"),
         }
     }
